@@ -114,7 +114,8 @@ impl BucketWorld {
         self.log.push(req.clone());
         let prefix = req.query_value("prefix").unwrap_or("").to_string();
         let max_keys = req.query_value("max-keys").and_then(|v| v.parse::<usize>().ok());
-        let mut selected: Vec<ListedObject> = self.objects.iter().filter(|o| o.key.starts_with(&prefix)).cloned().collect();
+        let selected: Vec<ListedObject> = self.objects.iter().filter(|o| o.key.starts_with(&prefix)).cloned().collect();
+        let mut selected = crate::s3sim::page_after(selected, req);
         let cap = max_keys.unwrap_or(1000).min(1000);
         let mut truncated = selected.len() > cap;
         selected.truncate(cap);
